@@ -11,6 +11,7 @@ mod orc;
 mod ri;
 mod tbl;
 mod util;
+mod vp;
 mod wal;
 mod wf;
 
@@ -34,6 +35,7 @@ fn main() {
     let mut ri_engine: Option<ri::Ri> = None;
     let mut wf_engine: Option<wf::Wf> = None;
     let mut dmg_engine: Option<dmg::Dmg> = None;
+    let mut vp_engine: Option<vp::Vp> = None;
     std::panic::set_hook(Box::new(|_| {}));
     for line in stdin.lock().lines() {
         let line = line.unwrap();
@@ -59,6 +61,7 @@ fn main() {
             }
             "dmg" => dmg_engine.get_or_insert_with(dmg::Dmg::new).cmd(&toks[1..]),
             "ri" => ri_engine.get_or_insert_with(ri::Ri::new).cmd(&toks[1..]),
+            "vp" => vp_engine.get_or_insert_with(vp::Vp::new).cmd(&toks[1..]),
             "wf" => wf_engine.get_or_insert_with(wf::Wf::new).cmd(&toks[1..]),
             "e2" => {
                 if toks.len() > 2 && toks[1] == "newat" {
